@@ -6,6 +6,7 @@ import (
 	"fmt"
 	"go/types"
 	"sort"
+	"strings"
 
 	"golang.org/x/tools/go/ssa"
 )
@@ -22,8 +23,20 @@ type TableEntry struct {
 
 type Table struct {
 	Global  *ssa.Global
+	Fn      *ssa.Function // the table is a dispatch function (switch over the key) instead of a map
 	Entries []TableEntry
 	Err     string
+}
+
+// where: source position of the table for reports.
+func (t *Table) where(c *Ctx) string {
+	switch {
+	case t.Global != nil:
+		return c.pos(t.Global.Pos())
+	case t.Fn != nil:
+		return c.pos(t.Fn.Pos())
+	}
+	return "-"
 }
 
 func (t *Table) byKey() map[string]*TableEntry {
@@ -61,6 +74,9 @@ func (c *Ctx) readTable0(pkg, name string) *Table {
 	}
 	g, _ := sp.Members[name].(*ssa.Global)
 	if g == nil {
+		if t := c.readDispatchFn(pkg, name); t != nil {
+			return t
+		}
 		return &Table{Err: "global not found: " + pkg + "." + name}
 	}
 	t := &Table{Global: g}
@@ -80,6 +96,123 @@ func (c *Ctx) readTable0(pkg, name string) *Table {
 		return t
 	}
 	c.readContainer(stored, t)
+	return t
+}
+
+// dispatchSpecs: the tables that may equally be written as a function switching over the key. The
+// function is found by its signature: one parameter of the key type, first result of the value type
+// (optionally a second boolean "found" result).
+type dispatchSpec struct {
+	key func(t types.Type) bool
+	val func(t types.Type) bool
+}
+
+func (c *Ctx) dispatchSpec(pkg, name string) *dispatchSpec {
+	isOp := func(t types.Type) bool { return isNamed(t, pkgExpr, "Operator") }
+	sigOf := func(t types.Type) *types.Signature {
+		s, _ := t.Underlying().(*types.Signature)
+		return s
+	}
+	switch pkg + "." + name {
+	case pkgExpr + ".renderers":
+		return &dispatchSpec{isOp, func(t types.Type) bool {
+			s := sigOf(t)
+			return s != nil && s.Params().Len() == 2 && isExprPtr(s.Params().At(0).Type()) && isBool(s.Params().At(1).Type()) && s.Results().Len() == 1 && isStringType(s.Results().At(0).Type())
+		}}
+	case pkgExpr + ".validators":
+		return &dispatchSpec{isOp, func(t types.Type) bool {
+			s := sigOf(t)
+			return s != nil && s.Params().Len() == 1 && isExprPtr(s.Params().At(0).Type()) && s.Results().Len() == 1 && isErrorType(s.Results().At(0).Type())
+		}}
+	case pkgLex + ".symbols":
+		return &dispatchSpec{func(t types.Type) bool {
+			b, ok := t.Underlying().(*types.Basic)
+			return ok && b.Kind() == types.Int32
+		}, func(t types.Type) bool { return isNamed(t, pkgLex, "TokType") }}
+	}
+	return nil
+}
+
+// readDispatchFn reads `func f(k K) (V, bool) { switch k { case c1: return v1, true … default: return zero, false } }`
+// as the table {c1: v1, …}: every returning path that yields a value must be selected by exactly one
+// equality on the parameter.
+func (c *Ctx) readDispatchFn(pkg, name string) *Table {
+	spec := c.dispatchSpec(pkg, name)
+	if spec == nil {
+		return nil
+	}
+	var cands []*ssa.Function
+	for _, f := range c.Funcs {
+		if fnPkgPath(f) != pkg || f.Parent() != nil || f.Signature.Recv() != nil || len(f.Blocks) == 0 {
+			continue
+		}
+		ps, rs := f.Signature.Params(), f.Signature.Results()
+		if ps.Len() != 1 || !spec.key(ps.At(0).Type()) || rs.Len() < 1 || rs.Len() > 2 || !spec.val(rs.At(0).Type()) {
+			continue
+		}
+		if rs.Len() == 2 && !isBool(rs.At(1).Type()) {
+			continue
+		}
+		cands = append(cands, f)
+	}
+	if len(cands) != 1 {
+		return nil
+	}
+	f := cands[0]
+	t := &Table{Fn: f}
+	paths, complete := c.enumPaths(f, 2000)
+	if !complete {
+		t.Err = "too many paths in dispatch function " + fnName(f)
+		return t
+	}
+	seen := map[string]bool{}
+	for _, p := range paths {
+		if p.Ret == nil {
+			t.Err = "dispatch function " + fnName(f) + " has a path that does not return"
+			return t
+		}
+		if len(p.Ret.Results) == 2 {
+			found, isC := constBoolVal(c.resolve(p.Ret.Results[1], p.Env))
+			if !isC {
+				t.Err = "dispatch function " + fnName(f) + ": the found result is not a constant"
+				return t
+			}
+			if !found {
+				continue
+			}
+		}
+		val := c.resolve(p.Ret.Results[0], p.Env)
+		if len(p.Ret.Results) == 1 && isNilConst(val) {
+			continue // no entry
+		}
+		var key ssa.Value
+		nEq := 0
+		for _, a := range p.Atoms {
+			if a.Kind == "cmp" && a.Subj == "$0" && a.Op == "==" {
+				nEq++
+				if bo, ok := a.Src.(*ssa.BinOp); ok {
+					if k, ok := bo.Y.(*ssa.Const); ok {
+						key = k
+					} else if k, ok := bo.X.(*ssa.Const); ok {
+						key = k
+					}
+				}
+			} else if !(a.Kind == "cmp" && a.Subj == "$0" && a.Op == "!=") {
+				t.Err = "dispatch function " + fnName(f) + " decides on something other than its key: " + a.String()
+				return t
+			}
+		}
+		if nEq != 1 || key == nil {
+			t.Err = "dispatch function " + fnName(f) + " yields a value on a path not selected by one key constant (default case?)"
+			return t
+		}
+		e := c.mkEntry(key, p.Ret.Results[0], p.Ret)
+		if seen[e.KeyName] {
+			continue
+		}
+		seen[e.KeyName] = true
+		t.Entries = append(t.Entries, e)
+	}
 	return t
 }
 
@@ -128,6 +261,23 @@ func (c *Ctx) readContainer(stored ssa.Value, t *Table) {
 			t.Err = "table initialised by a call that cannot be resolved"
 			return
 		}
+		// var T = invert(U): the builder returns {v: k | k, v ∈ its argument}, the argument being
+		// another package-level table
+		if len(x.Call.Args) == 1 && c.isInvertFn(f) {
+			if ld, ok := x.Call.Args[0].(*ssa.UnOp); ok {
+				if g, ok := ld.X.(*ssa.Global); ok && g.Pkg != nil {
+					src := c.readTable(g.Pkg.Pkg.Path(), g.Name())
+					if src.Err != "" {
+						t.Err = "inverted table's source: " + src.Err
+						return
+					}
+					for _, e := range src.Entries {
+						t.Entries = append(t.Entries, TableEntry{Key: e.Val, KeyName: c.key(e.Val, nil), Val: e.Key, Pos: e.Pos})
+					}
+					return
+				}
+			}
+		}
 		var ret ssa.Value
 		n := 0
 		for _, b := range f.Blocks {
@@ -150,6 +300,82 @@ func (c *Ctx) readContainer(stored ssa.Value, t *Table) {
 	default:
 		t.Err = fmt.Sprintf("unsupported table initialiser %T", stored)
 	}
+}
+
+// isInvertFn: f(m) builds a fresh map, stores out[v] = k for every k, v of a range over m, and
+// returns it.
+func (c *Ctx) isInvertFn(f *ssa.Function) bool {
+	if len(f.Params) != 1 {
+		return false
+	}
+	var mm *ssa.MakeMap
+	nUpd, nRet := 0, 0
+	for _, b := range f.Blocks {
+		for _, in := range b.Instrs {
+			switch x := in.(type) {
+			case *ssa.MakeMap:
+				if mm != nil {
+					return false
+				}
+				mm = x
+			case *ssa.Store, *ssa.Go, *ssa.Defer, *ssa.Send:
+				return false
+			}
+		}
+	}
+	if mm == nil {
+		return false
+	}
+	for _, b := range f.Blocks {
+		for _, in := range b.Instrs {
+			switch x := in.(type) {
+			case *ssa.MapUpdate:
+				if x.Map != ssa.Value(mm) {
+					return false
+				}
+				kx, ok1 := x.Key.(*ssa.Extract)
+				vx, ok2 := x.Value.(*ssa.Extract)
+				if !ok1 || !ok2 || kx.Tuple != vx.Tuple || kx.Index != 2 || vx.Index != 1 {
+					return false
+				}
+				nx, ok := kx.Tuple.(*ssa.Next)
+				if !ok {
+					return false
+				}
+				rg, ok := nx.Iter.(*ssa.Range)
+				if !ok || rg.X != ssa.Value(f.Params[0]) {
+					return false
+				}
+				// unconditional within the loop body: the update's block is reached from the loop header's ok edge only
+				nUpd++
+			case *ssa.Return:
+				if len(x.Results) != 1 || x.Results[0] != ssa.Value(mm) {
+					return false
+				}
+				nRet++
+			case *ssa.Call:
+				if _, isB := x.Call.Value.(*ssa.Builtin); !isB {
+					return false
+				}
+			}
+		}
+	}
+	if nUpd != 1 || nRet == 0 {
+		return false
+	}
+	// the update must not be guarded by anything but the loop's own "more elements" test
+	for _, b := range f.Blocks {
+		if iff, ok := b.Instrs[len(b.Instrs)-1].(*ssa.If); ok {
+			ex, ok := iff.Cond.(*ssa.Extract)
+			if !ok || ex.Index != 0 {
+				return false
+			}
+			if _, ok := ex.Tuple.(*ssa.Next); !ok {
+				return false
+			}
+		}
+	}
+	return true
 }
 
 func (c *Ctx) mkEntry(key, val ssa.Value, at ssa.Instruction) TableEntry {
@@ -340,40 +566,81 @@ func (c *Ctx) pgTable0() *PGTable {
 		return pt
 	}
 	pt.Overlay = &Table{}
-	c.readContainer(mm, pt.Overlay)
-	// copy loop: MapUpdate with key/value from Next over range *Shared, guarded by !found lookup in mm
-	for _, ref := range *mm.Referrers() {
-		mu, ok := ref.(*ssa.MapUpdate)
-		if !ok || mu.Map != mm {
-			continue
+	// The constructor is read as a sequence of operations on the fresh map, in instruction order:
+	// constant-keyed stores, a range copy of Shared (filling only missing keys when guarded by a failed
+	// lookup, overwriting otherwise) and maps.Copy from Shared or from a literal map built by a helper.
+	set := func(e TableEntry, overwrite bool) {
+		if _, have := pt.Eff[e.KeyName]; have && !overwrite {
+			return
 		}
-		if _, isConst := mu.Key.(*ssa.Const); isConst {
-			continue
+		ec := e
+		pt.Eff[e.KeyName] = &ec
+	}
+	overlayShared := func(overwrite bool) {
+		pt.CopyLoop = true
+		for _, e := range pt.Shared.Entries {
+			set(e, overwrite)
 		}
-		if ex, ok := mu.Key.(*ssa.Extract); ok {
-			if nx, ok := ex.Tuple.(*ssa.Next); ok {
-				if rg, ok := nx.Iter.(*ssa.Range); ok {
-					if ld, ok := rg.X.(*ssa.UnOp); ok && ld.X == pt.Shared.Global {
-						if vx, ok := mu.Value.(*ssa.Extract); ok && vx.Tuple == nx && vx.Index == 2 && ex.Index == 1 {
-							pt.CopyLoop = true
-							continue
+	}
+	for _, b := range ctor.Blocks {
+		for _, in := range b.Instrs {
+			switch x := in.(type) {
+			case *ssa.MapUpdate:
+				if x.Map != ssa.Value(mm) {
+					continue
+				}
+				if _, isConst := x.Key.(*ssa.Const); isConst {
+					e := c.mkEntry(x.Key, x.Value, x)
+					pt.Overlay.Entries = append(pt.Overlay.Entries, e)
+					set(e, true)
+					continue
+				}
+				okCopy := false
+				if ex, ok := x.Key.(*ssa.Extract); ok {
+					if nx, ok := ex.Tuple.(*ssa.Next); ok {
+						if rg, ok := nx.Iter.(*ssa.Range); ok {
+							if ld, ok := rg.X.(*ssa.UnOp); ok && ld.X == ssa.Value(pt.Shared.Global) {
+								if vx, ok := x.Value.(*ssa.Extract); ok && vx.Tuple == nx && vx.Index == 2 && ex.Index == 1 {
+									okCopy = true
+								}
+							}
 						}
 					}
 				}
-			}
-		}
-		pt.Err = "constructor writes a non-constant key that is not the Shared copy loop at " + c.instrPos(mu)
-		return pt
-	}
-	for i := range pt.Overlay.Entries {
-		e := &pt.Overlay.Entries[i]
-		pt.Eff[e.KeyName] = e
-	}
-	if pt.CopyLoop {
-		for i := range pt.Shared.Entries {
-			e := &pt.Shared.Entries[i]
-			if _, ok := pt.Eff[e.KeyName]; !ok {
-				pt.Eff[e.KeyName] = e
+				if !okCopy {
+					pt.Err = "constructor writes a non-constant key that is not a copy of Shared at " + c.instrPos(x)
+					return pt
+				}
+				guarded := false
+				for _, a := range c.domAtoms(b) {
+					if a.Kind == "call" && !a.Pos && strings.HasPrefix(a.Subj, "haskey:") && a.Val == c.key(x.Key, nil) {
+						guarded = true
+					}
+				}
+				overlayShared(!guarded)
+			case *ssa.Call:
+				name := calleeFullName(x)
+				if !(strings.HasPrefix(name, "maps.Copy") && len(x.Call.Args) == 2) {
+					continue
+				}
+				if c.resolve(x.Call.Args[0], nil) != ssa.Value(mm) {
+					continue
+				}
+				src := c.resolve(x.Call.Args[1], nil)
+				if ld, ok := src.(*ssa.UnOp); ok && ld.X == ssa.Value(pt.Shared.Global) {
+					overlayShared(true)
+					continue
+				}
+				tmp := &Table{}
+				c.readContainer(src, tmp)
+				if tmp.Err != "" || len(tmp.Entries) == 0 {
+					pt.Err = "constructor copies a map that cannot be read into the render table at " + c.instrPos(x) + ": " + tmp.Err
+					return pt
+				}
+				for _, e := range tmp.Entries {
+					pt.Overlay.Entries = append(pt.Overlay.Entries, e)
+					set(e, true)
+				}
 			}
 		}
 	}
